@@ -718,6 +718,12 @@ func (fb *fnBounds) inferPhiInvariants() {
 			if q != phi && q.Block() == phi.Block() {
 				qv, _ := phiVar(q)
 				addOther(linVar(qv), q.Comment)
+				if isIntType(q.Type()) && isIntType(phi.Type()) {
+					// two counters advancing together with a fixed lead (e.g. a write cursor behind a
+					// range index that starts at -1 over a re-slice)
+					addOther(linVar(qv).addK(1), q.Comment+"+1")
+					addOther(linVar(qv).addK(2), q.Comment+"+2")
+				}
 			}
 		}
 		// the phi's own incoming values (in terms of dominating variables) and their neighbours
